@@ -1,4 +1,5 @@
 import Copia.Lemmas.Delta4
+import Copia.Lemmas.Delta6
 /-!
 # C16 — the delta is at least as small as textbook greedy rsync
 
@@ -61,15 +62,34 @@ theorem identical (H : List Nat → D) (bs : Nat) (hbs : 0 < bs) (hbs2 : bs ≤ 
   have := tscan_identical bs hbs x (x.length + 1) 0 x [] (by simp) (by omega)
   simpa [litR] using this
 
-/-- `edit_bound` (inserting / deleting / replacing k bytes in a file of distinct blocks costs at most
-k + 2 blocks of literal data) is **not proved** here; it is stated so the gap stays visible, and it
-is checked on the implementation by the oracle of `./check C16` (key `edit-bound`). -/
+/-- the statement of the edit bound in the property's own words: basis of distinct blocks, `cut`
+(≤ k bytes) replaced by `mid` (≤ k bytes); insertion is `cut = []`, deletion `mid = []`. -/
 def EditBoundStatement : Prop :=
   ∀ (bs : Nat) (basis pre mid post : List Nat) (k : Nat), 0 < bs → bs ≤ 65536 →
     basis.length % bs = 0 → mid.length ≤ k →
     (∀ i j, i < j → j * bs < basis.length → (basis.drop (i * bs)).take bs ≠ (basis.drop (j * bs)).take bs) →
     (∃ cut, basis = pre ++ cut ++ post ∧ cut.length ≤ k) →
     literalBytes (textbook bs basis (pre ++ mid ++ post)) ≤ k + 2 * bs
+
+/-- C16 (edit bound, textbook side): proved — and without needing the blocks to be distinct or the
+removed part to be short: what was put in (`mid`) plus two blocks bounds the literal bytes. -/
+theorem edit_bound_statement : EditBoundStatement := by
+  intro bs basis pre mid post k hbs _ hal hmid _ ⟨cut, hb, _⟩
+  subst hb
+  have := textbook_edit_bound bs hbs pre cut mid post hal
+  omega
+
+/-- C16 (edit bound, for the delta the code computes): for every basis `pre ++ cut ++ post` whose
+length is a multiple of the block size and every source `pre ++ mid ++ post`, the delta carries at
+most `|mid| + 2·bs` literal bytes (k inserted/replaced bytes cost at most k plus two blocks; a pure
+deletion at most two blocks). -/
+theorem edit_bound (H : List Nat → D) (bs : Nat) (hbs : 0 < bs) (hbs2 : bs ≤ 65536)
+    (pre cut mid post : List Nat) (hsrc : Bytes (pre ++ mid ++ post))
+    (hcf : CollisionFree H bs (pre ++ cut ++ post) (pre ++ mid ++ post))
+    (hal : (pre ++ cut ++ post).length % bs = 0) :
+    literalBytes (delta H (signature H bs (pre ++ cut ++ post)) (pre ++ mid ++ post)).ops ≤ mid.length + 2 * bs := by
+  rw [ops_eq_textbook H bs hbs hbs2 _ _ hsrc hcf]
+  exact textbook_edit_bound bs hbs pre cut mid post hal
 
 /-! Non-vacuity + a concrete instance computed by the kernel: identity hash, block size 2. -/
 example : (delta (fun x => x) (signature (fun x => x) 2 [1, 2, 3, 4, 5, 6]) [1, 2, 9, 3, 4, 5, 6]).ops
